@@ -8,15 +8,20 @@
               (inline prefix, value-store id of the rest, length) is the reader's
               lexicographic order on whole byte strings;
      "find"   the binary search of range.rs transcribed step by step (left, right, size,
-              mid), on every strictly increasing sequence, window and probe, together with
-              the linear scan;
+              mid), on every non-decreasing sequence (strictly increasing, or with keys
+              written twice when Dups), window and probe, together with the linear scan; and
+              the acceptance test of the creator's sort loop (entry_store.rs finalize: re-sort
+              until every adjacent pair compares `is_le`, give up after 50 passes) on the
+              same sequences - EqualIsGreater = TRUE is the pinned comparison, which answers
+              Greater for two entries with equal keys and so never accepts a store in which a
+              key occurs twice;
      "refs"   entries that refer to each other: positions are assigned after the final
               sort and before columns are sized and written. *)
 EXTENDS EntryStore, Json
 
 CONSTANTS Mode,
           Alphabet, MaxLen, Prefixes, StoreKinds, MaxKeys,     \* "order"
-          KeyDomain, MaxSeq,                                   \* "find"
+          KeyDomain, MaxSeq, Dups, EqualIsGreater,             \* "find"
           NEntries, SizeBeforeAssign                           \* "refs"
 
 (* ================================================================= order *)
@@ -65,11 +70,21 @@ RECURSIVE SortedSeqOf(_)
 SortedSeqOf(S) == IF S = {} THEN <<>>
                   ELSE LET mn == CHOOSE x \in S : \A y \in S : x <= y IN <<mn>> \o SortedSeqOf(S \ {mn})
 StrictSeqs == {SortedSeqOf(S) : S \in {T \in SUBSET KeyDomain : Cardinality(T) <= MaxSeq}}
+(* non-decreasing sequences in which the keys of D occur twice *)
+RECURSIVE Doubled(_, _)
+Doubled(s, D) == IF s = <<>> THEN <<>>
+                 ELSE (IF Head(s) \in D THEN <<Head(s), Head(s)>> ELSE <<Head(s)>>) \o Doubled(Tail(s), D)
+SortedSeqs == IF Dups THEN {Doubled(SortedSeqOf(S), D) : S \in {T \in SUBSET KeyDomain : Cardinality(T) <= MaxSeq}, D \in SUBSET KeyDomain}
+              ELSE StrictSeqs
+(* creator/directory_pack/mod.rs FullEntryTrait::compare on one integer key *)
+WriterEntryCmp(a, b) == IF a < b THEN "less" ELSE IF a > b THEN "greater" ELSE IF EqualIsGreater THEN "greater" ELSE "equal"
+(* entry_store.rs finalize: the loop ends when every adjacent pair is `is_le` *)
+SortLoopAccepts(s) == \A i \in 1..(Len(s) - 1) : WriterEntryCmp(s[i], s[i + 1]) \in {"less", "equal"}
 
 InitOrder == \E S \in KeySets, p \in Prefixes, k \in StoreKinds :
                m = [mode |-> "order", keys |-> S, prefix |-> p,
                     store |-> StoreOf(k, {ArrRest(a, p) : a \in S})]
-InitFind == \E s \in StrictSeqs : \E off \in 0..Len(s) : \E count \in 0..(Len(s) - off) : \E probe \in KeyDomain :
+InitFind == \E s \in SortedSeqs : \E off \in 0..Len(s) : \E count \in 0..(Len(s) - off) : \E probe \in KeyDomain :
               m = [mode |-> "find", seq |-> s, off |-> off, count |-> count, probe |-> probe,
                    left |-> 0, right |-> count, size |-> count, pc |-> "loop", res |-> -2, steps |-> 0]
 (* one iteration of the loop in range.rs *)
@@ -128,9 +143,17 @@ FindComplete == (m.mode = "find" /\ m.pc = "done" /\ m.res = -1) => \A i \in 0..
 LoopInv == (m.mode = "find" /\ m.pc = "loop") =>
   /\ m.left <= m.right /\ m.right <= m.count /\ m.size = m.right - m.left
   /\ \A i \in 0..(m.count - 1) : m.seq[m.off + i + 1] = m.probe => (i >= m.left /\ i < m.right)
+(* the two modes find a key or miss it together; they name the same entry when the key occurs once
+   (with a key written twice the scan returns the first occurrence, the bisection either) *)
+Occurrences == {i \in 0..(m.count - 1) : m.seq[m.off + i + 1] = m.probe}
 ModesAgree == (m.mode = "find" /\ m.pc = "done") =>
-  /\ LinSearch(m.seq, m.off, m.count, m.probe, 0, <<>>).res = m.res
+  LET lin == LinSearch(m.seq, m.off, m.count, m.probe, 0, <<>>).res IN
+  /\ (lin >= 0) <=> (m.res >= 0)
+  /\ Cardinality(Occurrences) <= 1 => lin = m.res
+  /\ lin >= 0 => lin \in Occurrences
   /\ BinSearch(m.seq, m.off, m.probe, 0, m.count, m.count, <<>>).res = m.res
+(* every non-decreasing store is one the creator's sort loop accepts (else: 'Cannot sort entry store') *)
+SortedIsAccepted == m.mode = "find" => SortLoopAccepts(m.seq)
 FindTerminates == (m.mode = "find") => <>(m.pc = "done")
 (* logarithmic: never more probes than the window has entries, + 1 *)
 FindBounded == m.mode = "find" => m.steps <= m.count + 1
